@@ -6,9 +6,7 @@ Local Open Scope nat_scope.
 (* ------------------------------------------------------------------------------------------ *)
 (* Readiness                                                                                   *)
 (* ------------------------------------------------------------------------------------------ *)
-Definition leaf_t := (nat * rans * list mapper)%type.
 Definition has_err (ls : list leaf_t) : bool := existsb (fun x => is_rerr (snd (fst x))) ls.
-Definition ev_of (w : nat) (x : leaf_t) : event := let '(id, a, _) := x in EvReady id w a.
 
 Lemma polled_no_err : forall ls, has_err ls = false -> polled ls = ls.
 Proof.
@@ -21,7 +19,7 @@ Lemma polled_app : forall la lb,
 Proof.
   unfold has_err. induction la as [|[[id r] ms] t IH]; cbn; intros lb; [reflexivity|].
   destruct (is_rerr r); cbn; [reflexivity|]. rewrite IH.
-  destruct (existsb _ t); reflexivity.
+  match goal with |- context [existsb ?f t] => destruct (existsb f t) end; reflexivity.
 Qed.
 
 Lemma conj_ready_err_iff : forall ls, is_rerr (conj_ready ls) = has_err ls.
@@ -194,14 +192,6 @@ Qed.
 Definition callev (ev : event) : Prop :=
   match ev with EvCall _ _ | EvMap _ _ _ => True | _ => False end.
 
-(* events a poll with waker w may emit: leaf future polls with THAT waker that were not
-   after completion, calls of later stages, closure applications *)
-Definition okev (w : nat) (ev : event) : Prop :=
-  match ev with
-  | EvPoll _ w' _ => w' = w
-  | EvCall _ _ | EvMap _ _ _ => True
-  | _ => False
-  end.
 
 Fixpoint live (f : sfut) : Prop :=
   match f with
@@ -214,8 +204,6 @@ Fixpoint live (f : sfut) : Prop :=
   | FMapEr _ _ fut => live fut
   end.
 
-Definition ends_pending (w : nat) (l : list event) : Prop :=
-  exists l0 id, l = l0 ++ [EvPoll id w PPending].
 
 Lemma callev_okev : forall w l, Forall callev l -> Forall (okev w) l.
 Proof.
@@ -285,18 +273,6 @@ Proof.
   - destruct wf; cbn [live]; [apply IHa|discriminate].
 Qed.
 
-(* per-poll view of driving a future *)
-Fixpoint polls (n w : nat) (f : sfut) : list (nat * pres * list event) :=
-  match n with
-  | O => []
-  | S n' =>
-      let '(f', r, l) := poll f w in
-      (w, r, l) :: match r with PPending => polls n' (S w) f' | _ => [] end
-  end.
-
-Definition good_poll (x : nat * pres * list event) : Prop :=
-  let '(w, r, l) := x in
-  r <> PPanic /\ Forall (okev w) l /\ (r = PPending -> ends_pending w l).
 
 Lemma polls_live : forall n w f, live f -> Forall good_poll (polls n w f).
 Proof.
@@ -434,4 +410,59 @@ Proof.
       destruct (denote a (app_m pre req)); reflexivity.
     + exists []. split; [eapply RunDone; reflexivity|reflexivity].
   - apply IHa.
+Qed.
+
+(* ------------------------------------------------------------------------------------------ *)
+(* Statements used by Props/C11.v and Props/C12.v (service level)                              *)
+(* ------------------------------------------------------------------------------------------ *)
+Lemma run_call_spec : forall e req w n, delay e req < n ->
+  exists L, run_call n w e req = (PReady (denote e req), S (delay e req), L) /\ proj L = sem e req.
+Proof.
+  intros e req w n Hn. destruct (call_Run e req w) as (L & HR & HP).
+  exists (call_evs e req ++ L). split; [|exact HP].
+  unfold run_call. now rewrite (drive_of_Run _ _ _ _ _ HR n Hn).
+Qed.
+
+Lemma run_call_value : forall e req w n, delay e req < n ->
+  fst (run_call n w e req) = (PReady (denote e req), S (delay e req)).
+Proof. intros e req w n Hn. destruct (run_call_spec e req w n Hn) as (L & -> & _). reflexivity. Qed.
+
+Lemma run_call_order : forall e req w n, delay e req < n ->
+  proj (snd (run_call n w e req)) = sem e req.
+Proof. intros e req w n Hn. destruct (run_call_spec e req w n Hn) as (L & -> & HP). exact HP. Qed.
+
+Lemma call_polls_good : forall e req n w, Forall good_poll (polls n w (call_fut e req)).
+Proof. intros. apply polls_live, live_call. Qed.
+
+Lemma run_call_log : forall n w e req,
+  snd (run_call n w e req)
+  = call_evs e req ++ concat (map (fun x : nat * pres * list event => snd x) (polls n w (call_fut e req))).
+Proof.
+  intros. unfold run_call. rewrite <- drive_polls.
+  destruct (drive n w (call_fut e req)) as [[r c] l]. reflexivity.
+Qed.
+
+Lemma ready_pending_has_pending : forall e w e' l,
+  poll_ready e w = (e', RPending, l) -> exists id ms, In (id, RPending, ms) (leaves e).
+Proof.
+  intros e w e' l H. destruct (poll_ready_spec _ _ _ _ _ H) as [E _].
+  now apply conj_ready_pending_ex.
+Qed.
+
+Lemma ready_err_first : forall e w e' x l,
+  poll_ready e w = (e', RErr x, l) ->
+  exists pre id e0 ms post,
+    leaves e = pre ++ (id, RErr e0, ms) :: post
+    /\ Forall (fun y : leaf_t => is_rerr (snd (fst y)) = false) pre
+    /\ x = fold_left (fun v m => app_m m v) ms e0
+    /\ ready_evs l = map (ev_of w) (pre ++ [(id, RErr e0, ms)]).
+Proof.
+  intros e w e' x l H. destruct (poll_ready_spec _ _ _ _ _ H) as [E L].
+  destruct (conj_ready_err_split _ _ (eq_sym E)) as (pre & id & e0 & ms & post & Hl & Hp & Hx & Hq).
+  exists pre, id, e0, ms, post. repeat split; try assumption.
+  - apply Forall_forall. intros y Hy.
+    destruct (is_rerr (snd (fst y))) eqn:Ey; [|reflexivity].
+    assert (HT : has_err pre = true) by (unfold has_err; apply existsb_exists; eauto).
+    rewrite HT in Hp. discriminate.
+  - now rewrite L, Hq.
 Qed.
